@@ -1,6 +1,7 @@
-(* C10, tag scoping: for b/i/u tags in angle syntax (<b> <bold> <B> ...), nested and adjacent at will around
-   plain text and line breaks, the children that _TextParser builds flatten to the payload's characters,
-   each with exactly the styles of the tags that enclose it. *)
+(* C10, tag scoping: for b/i/u tags in angle syntax (<b> <bold> <B> ...) and <font color=..> tags, nested and
+   adjacent at will around plain text, character references and line breaks, with closing tags that close
+   nothing anywhere, the children that _TextParser builds flatten to the payload's characters, each with exactly
+   the styles of the tags that enclose it. *)
 From TT Require Import Base.Prelude Base.SrtTypes Gen.SrtTables Model.SrtReader Spec.SrtCueSpec
   Proofs.C10.Lines Proofs.C10.Text Proofs.C10.Roundtrip Proofs.C10.NoFinalEol Proofs.C10.Font Proofs.C10.Refs.
 Local Open Scope Z_scope.
@@ -46,6 +47,10 @@ Lemma items_font s c q body : items s (NFont c q body) = items_list (with_color 
 Proof. cbn [items]. induction body as [|x l IH]; [reflexivity|]. cbn [items_list]. rewrite <- IH. reflexivity. Qed.
 Lemma angle_font c q body : angle_node (NFont c q body) = forallb angle_node body.
 Proof. reflexivity. Qed.
+Lemma stray_tag ctx k sy body : stray_ok ctx (NTag k sy body) = forallb (stray_ok (Some (k, sy))) body.
+Proof. reflexivity. Qed.
+Lemma stray_font ctx c q body : stray_ok ctx (NFont c q body) = forallb (stray_ok None) body.
+Proof. reflexivity. Qed.
 Lemma wf_font c q body : wf_node (NFont c q body) = wf_colspec c && forallb wf_node body.
 Proof. reflexivity. Qed.
 
@@ -53,40 +58,39 @@ Lemma flat_span inh s kids : flat inh (ESpan s kids) = flat_list (inherit inh s)
 Proof. cbn [flat]. induction kids as [|x l IH]; [reflexivity|]. cbn [flat_list]. rewrite <- IH. reflexivity. Qed.
 
 (* ------------------------------------------------------------------ the zipper's flattened view *)
-Definition frames := list (sstyle * list elem).
+Definition frames := list frame.
 Fixpoint style_of (fs : frames) : sstyle :=
-  match fs with [] => st0 | (s, _) :: fs' => inherit (style_of fs') s end.
+  match fs with [] => st0 | (_, s, _) :: fs' => inherit (style_of fs') s end.
 Fixpoint view (fs : frames) (pk : list elem) : list item :=
   match fs with
   | [] => flat_list st0 pk
-  | (s, k) :: fs' => view fs' pk ++ flat_list (style_of fs) k
+  | (_, s, k) :: fs' => view fs' pk ++ flat_list (style_of fs) k
   end.
+(* what stays the same while children are added: the names and styles of the open spans *)
+Definition shape (fs : frames) : list (text * sstyle) := map fst fs.
 
 Lemma close_all_view fs : forall extra pk,
   flat_list st0 (close_all extra fs pk) = view fs pk ++ flat_list (style_of fs) extra.
 Proof.
-  induction fs as [|[s k] fs IH]; intros extra pk; cbn [close_all view style_of].
+  induction fs as [|[[n s] k] fs IH]; intros extra pk; cbn [close_all view style_of].
   - apply flat_list_app.
   - rewrite IH. cbn [flat_list]. rewrite flat_span, app_nil_r. rewrite flat_list_app, app_assoc. reflexivity.
 Qed.
 
-Definition cur_of (c : cursor) : frames * list elem := match c with CP f p => (f, p) | CAbove _ p => ([], p) end.
-
 Lemma view_push fs pk es :
   match push_kids fs pk es with
-  | CP fs' pk' => view fs' pk' = view fs pk ++ flat_list (style_of fs) es /\ map fst fs' = map fst fs
-  | _ => False
+  | CP fs' pk' => view fs' pk' = view fs pk ++ flat_list (style_of fs) es /\ shape fs' = shape fs
   end.
 Proof.
-  destruct fs as [|[s k] fs]; cbn [push_kids view style_of].
+  destruct fs as [|[[n s] k] fs]; cbn [push_kids view style_of].
   - rewrite flat_list_app. auto.
   - rewrite flat_list_app, app_assoc. auto.
 Qed.
 
-Lemma style_of_shape a : forall b, map fst a = map fst b -> style_of a = style_of b.
+Lemma style_of_shape a : forall b, shape a = shape b -> style_of a = style_of b.
 Proof.
-  induction a as [|[s k] a IH]; intros [|[s' k'] b] H; try discriminate; [reflexivity|].
-  cbn [map fst] in H. injection H as H1 H2. subst. cbn [style_of]. rewrite (IH b) by auto. reflexivity.
+  unfold shape. induction a as [|[[n s] k] a IH]; intros [|[[n' s'] k'] b] H; try discriminate; [reflexivity|].
+  cbn [map fst] in H. injection H as H1 H2 H3. subst. cbn [style_of]. rewrite (IH b) by auto. reflexivity.
 Qed.
 
 (* pending data flushed into the tree *)
@@ -99,14 +103,14 @@ Proof. unfold items_of_text. apply flat_map_app. Qed.
 (* handling the tokens of flushed pending data *)
 Lemma handle_flush pend fs pk ts :
   exists fs' pk',
-    handle true (flush pend ++ ts) (CP fs pk) = handle true ts (CP fs' pk') /\
-    view fs' pk' = pview pend fs pk /\ map fst fs' = map fst fs.
+    handle (flush pend ++ ts) (CP fs pk) = handle ts (CP fs' pk') /\
+    view fs' pk' = pview pend fs pk /\ shape fs' = shape fs.
 Proof.
   unfold flush, pview. destruct pend as [|c pend].
   - exists fs, pk. cbn [app rev]. change (unescape []) with (@nil Z). cbn [items_of_text flat_map]. rewrite app_nil_r. auto.
   - cbn [app handle].
     cbn [handle_data]. pose proof (view_push fs pk (data_kids true (split_lf (unescape (rev (c :: pend)))))) as V.
-    destruct (push_kids fs pk _) as [fs' pk'|]; [|contradiction].
+    destruct (push_kids fs pk _) as [fs' pk'].
     exists fs', pk'. destruct V as (V1 & V2). rewrite V1. rewrite flat_data_kids. cbn [app]. auto.
 Qed.
 
@@ -126,7 +130,7 @@ Lemma tok_open k sy pend X : is_brace sy = false ->
 Proof. intro H. destruct k, sy; try discriminate; reflexivity. Qed.
 
 Lemma tok_close k sy pend X : is_brace sy = false ->
-  tok O pend (close_tag k sy ++ X) = flush pend ++ TEnd :: tok O [] X.
+  tok O pend (close_tag k sy ++ X) = flush pend ++ TEnd (low_name k sy) :: tok O [] X.
 Proof. intro H. destruct k, sy; try discriminate; reflexivity. Qed.
 
 Lemma tag_style_spec k sy : is_brace sy = false ->
@@ -139,19 +143,51 @@ Lemma inherit_tag k outer :
 Proof. destruct outer as [b i u c], k; unfold inherit, with_tag; cbn [st_b st_i st_u st_c]; rewrite ?orb_true_r, ?orb_false_r; reflexivity. Qed.
 
 (* ------------------------------------------------------------------ the forest lemma *)
+(* the innermost open span is the tag that directly encloses the node (or a font span, or nothing is open) *)
+Definition top_ok (ctx : option (tagk * syn)) (fs : frames) : Prop :=
+  match fs with
+  | [] => True
+  | (nm, _, _) :: _ => match ctx with Some (k, sy) => nm = low_name k sy | None => nm = t_font end
+  end.
+Lemma top_ok_shape ctx a b : shape a = shape b -> top_ok ctx a -> top_ok ctx b.
+Proof.
+  unfold shape. destruct a as [|[[n s] k] a], b as [|[[n' s'] k'] b]; cbn [map fst]; try discriminate; auto.
+  intro H. injection H as H1 _ _. subst. auto.
+Qed.
+
+(* a closer that closes nothing is ignored: its name is not the name of the innermost open span *)
+Lemma stray_name k sy k' sy' : same_name k sy k' sy' = false -> text_eqb (low_name k' sy') (low_name k sy) = false.
+Proof. destruct k, sy, k', sy'; try discriminate; reflexivity. Qed.
+Lemma font_name k sy : text_eqb t_font (low_name k sy) = false.
+Proof. destruct k, sy; reflexivity. Qed.
+
+Lemma text_eqb_refl a : text_eqb a a = true.
+Proof. apply text_eqb_eq. reflexivity. Qed.
+
+Lemma handle_stray ctx k sy fs pk ts : stray_ok ctx (NStray k sy) = true -> top_ok ctx fs ->
+  handle (TEnd (low_name k sy) :: ts) (CP fs pk) = handle ts (CP fs pk).
+Proof.
+  intros S T. cbn [handle handle_end]. destruct fs as [|[[nm s] kk] fs]; [reflexivity|].
+  cbn [top_ok] in T. cbn [stray_ok] in S. destruct ctx as [[k' sy']|]; subst nm.
+  - apply negb_true_iff in S. rewrite stray_name by auto. reflexivity.
+  - rewrite font_name. reflexivity.
+Qed.
+
 Definition node_goal (n : node) : Prop :=
   angle_node n = true -> wf_node n = true ->
-  forall pend fs pk X, closed (rev pend) ->
+  forall ctx, stray_ok ctx n = true ->
+  forall pend fs pk X, closed (rev pend) -> top_ok ctx fs ->
   exists pend' fs' pk',
-    handle true (tok O pend (print_node n ++ X)) (CP fs pk) = handle true (tok O pend' X) (CP fs' pk') /\
-    closed (rev pend') /\ map fst fs' = map fst fs /\
+    handle (tok O pend (print_node n ++ X)) (CP fs pk) = handle (tok O pend' X) (CP fs' pk') /\
+    closed (rev pend') /\ shape fs' = shape fs /\
     pview pend' fs' pk' = pview pend fs pk ++ items (style_of fs) n.
 Definition nodes_goal (l : list node) : Prop :=
   forallb angle_node l = true -> forallb wf_node l = true ->
-  forall pend fs pk X, closed (rev pend) ->
+  forall ctx, forallb (stray_ok ctx) l = true ->
+  forall pend fs pk X, closed (rev pend) -> top_ok ctx fs ->
   exists pend' fs' pk',
-    handle true (tok O pend (print_nodes l ++ X)) (CP fs pk) = handle true (tok O pend' X) (CP fs' pk') /\
-    closed (rev pend') /\ map fst fs' = map fst fs /\
+    handle (tok O pend (print_nodes l ++ X)) (CP fs pk) = handle (tok O pend' X) (CP fs' pk') /\
+    closed (rev pend') /\ shape fs' = shape fs /\
     pview pend' fs' pk' = pview pend fs pk ++ items_list (style_of fs) l.
 
 Lemma char_step c pend fs pk X : plain_char c = true \/ c = 10 -> closed (rev pend) ->
@@ -191,79 +227,85 @@ Qed.
 Lemma forest_lemma : forall l, nodes_goal l.
 Proof.
   apply (nodes_ind2 node_goal nodes_goal); unfold node_goal, nodes_goal.
-  - (* NChar *) intros c _ W pend fs pk X A. cbn [wf_node] in W.
+  - (* NChar *) intros c _ W ctx _ pend fs pk X A _. cbn [wf_node] in W.
     destruct (char_step c pend fs pk X (or_introl W) A) as (T & L & V).
     exists (c :: pend), fs, pk. cbn [print_node app]. rewrite T. repeat split; auto.
     rewrite V. cbn [items]. unfold item_of_char. replace (c =? 10) with false by (unfold plain_char in W; lia). reflexivity.
-  - (* NRef *) intros r _ W pend fs pk X A. cbn [wf_node] in W.
+  - (* NRef *) intros r _ W ctx _ pend fs pk X A _. cbn [wf_node] in W.
     destruct (ref_step r pend fs pk X W A) as (T & L & V).
     exists (rev (print_cref r) ++ pend), fs, pk. cbn [print_node]. rewrite T. repeat split; auto.
-  - (* NBreak *) intros _ _ pend fs pk X A.
+  - (* NBreak *) intros _ _ ctx _ pend fs pk X A _.
     destruct (char_step 10 pend fs pk X (or_intror eq_refl) A) as (T & L & V).
     exists (10 :: pend), fs, pk. cbn [print_node app]. rewrite T. repeat split; auto.
-  - (* NTag *) intros k sy body IH Ha Hw pend fs pk X A.
+  - (* NTag *) intros k sy body IH Ha Hw ctx Hs0 pend fs pk X A T0.
     rewrite angle_tag in Ha. apply andb_true_iff in Ha as [Hs Hb]. apply negb_true_iff in Hs.
-    rewrite wf_tag in Hw. rewrite print_tag. repeat rewrite <- app_assoc.
+    rewrite wf_tag in Hw. rewrite stray_tag in Hs0. rewrite print_tag. repeat rewrite <- app_assoc.
     rewrite tok_open by auto.
     destruct (handle_flush pend fs pk (TStart (low_name k sy) [] :: tok O [] (print_nodes body ++ close_tag k sy ++ X)))
       as (fs1 & pk1 & E1 & V1 & S1).
     rewrite E1. cbn [handle handle_start]. rewrite tag_style_spec by auto.
     set (stk := match k with KB => mkSt true false false None | KI => mkSt false true false None | KU => mkSt false false true None end).
-    destruct (IH Hb Hw [] ((stk, []) :: fs1) pk1 (close_tag k sy ++ X) closed_nil)
+    destruct (IH Hb Hw (Some (k, sy)) Hs0 [] ((low_name k sy, stk, []) :: fs1) pk1 (close_tag k sy ++ X) closed_nil eq_refl)
       as (pend2 & fs2 & pk2 & E2 & A2 & S2 & V2).
     rewrite E2. rewrite tok_close by auto.
-    destruct (handle_flush pend2 fs2 pk2 (TEnd :: tok O [] X)) as (fs3 & pk3 & E3 & V3 & S3).
+    destruct (handle_flush pend2 fs2 pk2 (TEnd (low_name k sy) :: tok O [] X)) as (fs3 & pk3 & E3 & V3 & S3).
     rewrite E3. cbn [handle].
-    rewrite S2 in S3. cbn [map fst] in S3.
-    destruct fs3 as [|[s3 k3] fs3']; [discriminate|]. cbn [map fst] in S3. injection S3 as S3a S3b. subst s3.
-    cbn [handle_end].
+    rewrite S2 in S3. unfold shape in S3. cbn [map fst] in S3.
+    destruct fs3 as [|[[n3 s3] k3] fs3']; [discriminate|]. cbn [map fst] in S3. injection S3 as S3n S3a S3b. subst s3 n3.
+    cbn [handle_end]. rewrite text_eqb_refl.
     pose proof (view_push fs3' pk3 [ESpan stk k3]) as VP.
-    destruct (push_kids fs3' pk3 [ESpan stk k3]) as [fs4 pk4|]; [|contradiction].
+    destruct (push_kids fs3' pk3 [ESpan stk k3]) as [fs4 pk4].
     destruct VP as (V4 & S4).
     exists [], fs4, pk4. split; [reflexivity|]. split; [exact closed_nil|].
-    split; [congruence|].
+    split; [unfold shape in *; congruence|].
     unfold pview at 1. cbn [rev]. change (unescape []) with (@nil Z). cbn [items_of_text flat_map]. rewrite app_nil_r.
     rewrite V4. cbn [flat_list]. rewrite flat_span, app_nil_r.
-    assert (Sin : inherit (style_of fs3') stk = style_of ((stk, k3) :: fs3')) by reflexivity.
-    rewrite Sin. change (view fs3' pk3 ++ flat_list (style_of ((stk, k3) :: fs3')) k3) with (view ((stk, k3) :: fs3') pk3).
-    rewrite V3, V2. unfold pview at 1. cbn [rev]. change (unescape []) with (@nil Z). cbn [items_of_text flat_map view flat_list]. rewrite !app_nil_r.
+    assert (Sin : inherit (style_of fs3') stk = style_of ((low_name k sy, stk, k3) :: fs3')) by reflexivity.
+    rewrite Sin. change (view fs3' pk3 ++ flat_list (style_of ((low_name k sy, stk, k3) :: fs3')) k3) with (view ((low_name k sy, stk, k3) :: fs3') pk3).
+    transitivity (pview pend2 fs2 pk2); [exact V3|]. rewrite V2. unfold pview at 1. cbn [rev]. change (unescape []) with (@nil Z). cbn [items_of_text flat_map view flat_list]. rewrite !app_nil_r.
     rewrite V1. rewrite items_tag. f_equal.
     cbn [style_of]. unfold stk. rewrite inherit_tag. rewrite (style_of_shape fs1 fs) by auto. reflexivity.
-  - (* NFont *) intros c q body IH Ha Hw pend fs pk X A.
-    rewrite angle_font in Ha. rewrite wf_font in Hw. apply andb_true_iff in Hw as [Wc Hw].
+  - (* NFont *) intros c q body IH Ha Hw ctx Hs0 pend fs pk X A T0.
+    rewrite angle_font in Ha. rewrite wf_font in Hw. apply andb_true_iff in Hw as [Wc Hw]. rewrite stray_font in Hs0.
     rewrite print_font. repeat rewrite <- app_assoc.
     rewrite tok_font by auto.
     destruct (handle_flush pend fs pk (TStart t_font [(t_color, Some (print_colspec c))] :: tok O [] (print_nodes body ++ close_font ++ X)))
       as (fs1 & pk1 & E1 & V1 & S1).
     rewrite E1. cbn [handle handle_start]. rewrite font_style_spec by auto.
     set (stk := mkSt false false false (Some (colspec_rgba c))).
-    destruct (IH Ha Hw [] ((stk, []) :: fs1) pk1 (close_font ++ X) closed_nil)
+    destruct (IH Ha Hw None Hs0 [] ((t_font, stk, []) :: fs1) pk1 (close_font ++ X) closed_nil eq_refl)
       as (pend2 & fs2 & pk2 & E2 & A2 & S2 & V2).
     rewrite E2. rewrite tok_close_font.
-    destruct (handle_flush pend2 fs2 pk2 (TEnd :: tok O [] X)) as (fs3 & pk3 & E3 & V3 & S3).
+    destruct (handle_flush pend2 fs2 pk2 (TEnd t_font :: tok O [] X)) as (fs3 & pk3 & E3 & V3 & S3).
     rewrite E3. cbn [handle].
-    rewrite S2 in S3. cbn [map fst] in S3.
-    destruct fs3 as [|[s3 k3] fs3']; [discriminate|]. cbn [map fst] in S3. injection S3 as S3a S3b. subst s3.
-    cbn [handle_end].
+    rewrite S2 in S3. unfold shape in S3. cbn [map fst] in S3.
+    destruct fs3 as [|[[n3 s3] k3] fs3']; [discriminate|]. cbn [map fst] in S3. injection S3 as S3n S3a S3b. subst s3 n3.
+    cbn [handle_end]. rewrite text_eqb_refl.
     pose proof (view_push fs3' pk3 [ESpan stk k3]) as VP.
-    destruct (push_kids fs3' pk3 [ESpan stk k3]) as [fs4 pk4|]; [|contradiction].
+    destruct (push_kids fs3' pk3 [ESpan stk k3]) as [fs4 pk4].
     destruct VP as (V4 & S4).
     exists [], fs4, pk4. split; [reflexivity|]. split; [exact closed_nil|].
-    split; [congruence|].
+    split; [unfold shape in *; congruence|].
     unfold pview at 1. cbn [rev]. change (unescape []) with (@nil Z). cbn [items_of_text flat_map]. rewrite app_nil_r.
     rewrite V4. cbn [flat_list]. rewrite flat_span, app_nil_r.
-    assert (Sin : inherit (style_of fs3') stk = style_of ((stk, k3) :: fs3')) by reflexivity.
-    rewrite Sin. change (view fs3' pk3 ++ flat_list (style_of ((stk, k3) :: fs3')) k3) with (view ((stk, k3) :: fs3') pk3).
-    rewrite V3, V2. unfold pview at 1. cbn [rev]. change (unescape []) with (@nil Z). cbn [items_of_text flat_map view flat_list]. rewrite !app_nil_r.
+    assert (Sin : inherit (style_of fs3') stk = style_of ((t_font, stk, k3) :: fs3')) by reflexivity.
+    rewrite Sin. change (view fs3' pk3 ++ flat_list (style_of ((t_font, stk, k3) :: fs3')) k3) with (view ((t_font, stk, k3) :: fs3') pk3).
+    transitivity (pview pend2 fs2 pk2); [exact V3|]. rewrite V2. unfold pview at 1. cbn [rev]. change (unescape []) with (@nil Z). cbn [items_of_text flat_map view flat_list]. rewrite !app_nil_r.
     rewrite V1. rewrite items_font. f_equal.
     cbn [style_of]. unfold stk. rewrite inherit_color. rewrite (style_of_shape fs1 fs) by auto. reflexivity.
-  - intros k sy H. discriminate.
-  - (* nil *) intros _ _ pend fs pk X A. exists pend, fs, pk. cbn [print_nodes app items_list]. rewrite app_nil_r. auto.
-  - (* cons *) intros x l IHx IHl Ha Hw pend fs pk X A. cbn [forallb] in *.
-    apply andb_true_iff in Ha as [Ha1 Ha2]. apply andb_true_iff in Hw as [Hw1 Hw2].
+  - (* NStray: flushed data, then an end tag that is ignored *)
+    intros k sy Ha _ ctx Hs0 pend fs pk X A T0. cbn [angle_node] in Ha. apply negb_true_iff in Ha.
+    cbn [print_node]. rewrite tok_close by auto.
+    destruct (handle_flush pend fs pk (TEnd (low_name k sy) :: tok O [] X)) as (fs1 & pk1 & E1 & V1 & S1).
+    rewrite E1. rewrite (handle_stray ctx) by (auto; apply (top_ok_shape ctx fs fs1); auto).
+    exists [], fs1, pk1. split; [reflexivity|]. split; [exact closed_nil|]. split; [auto|].
+    unfold pview at 1. cbn [rev]. change (unescape []) with (@nil Z). cbn [items_of_text flat_map items]. rewrite !app_nil_r. exact V1.
+  - (* nil *) intros _ _ ctx _ pend fs pk X A _. exists pend, fs, pk. cbn [print_nodes app items_list]. rewrite app_nil_r. auto.
+  - (* cons *) intros x l IHx IHl Ha Hw ctx Hs0 pend fs pk X A T0. cbn [forallb] in *.
+    apply andb_true_iff in Ha as [Ha1 Ha2]. apply andb_true_iff in Hw as [Hw1 Hw2]. apply andb_true_iff in Hs0 as [Hs1 Hs2].
     cbn [print_nodes]. rewrite <- app_assoc.
-    destruct (IHx Ha1 Hw1 pend fs pk (print_nodes l ++ X) A) as (p1 & f1 & k1 & E1 & A1 & S1 & V1).
-    destruct (IHl Ha2 Hw2 p1 f1 k1 X A1) as (p2 & f2 & k2 & E2 & A2 & S2 & V2).
+    destruct (IHx Ha1 Hw1 ctx Hs1 pend fs pk (print_nodes l ++ X) A T0) as (p1 & f1 & k1 & E1 & A1 & S1 & V1).
+    destruct (IHl Ha2 Hw2 ctx Hs2 p1 f1 k1 X A1 (top_ok_shape ctx fs f1 (eq_sym S1) T0)) as (p2 & f2 & k2 & E2 & A2 & S2 & V2).
     exists p2, f2, k2. rewrite E1, E2. repeat split; auto; try congruence.
     rewrite V2, V1. cbn [items_list]. rewrite (style_of_shape f1 fs) by auto. rewrite app_assoc. reflexivity.
 Qed.
@@ -292,7 +334,8 @@ Proof.
     destruct (IH Ha Hw) as [A B]. rewrite print_font. destruct (font_open_chars c q Wc) as [O1 O2].
     assert (O3 : lacks 123 close_font /\ no_cr close_font) by (split; reflexivity). destruct O3 as [O3 O4].
     split; repeat (first [assumption | apply lacks_app | apply no_cr_app]).
-  - intros k sy H. discriminate.
+  - intros k sy Ha _. cbn [angle_node] in Ha. apply negb_true_iff in Ha. cbn [print_node].
+    destruct k, sy; try discriminate; split; reflexivity.
   - intros _ _. split; reflexivity.
   - intros x l IHx IHl Ha Hw. cbn [forallb] in *.
     apply andb_true_iff in Ha as [Ha1 Ha2]. apply andb_true_iff in Hw as [Hw1 Hw2].
@@ -300,47 +343,28 @@ Proof.
 Qed.
 
 (* what _TextParser makes of the printed form of an angle-syntax payload *)
-Lemma angle_parse p : forallb angle_node p = true -> forallb wf_node p = true ->
-  exists kids, parse_text true (print_nodes p) = Ok kids /\ flat_list st0 kids = items_list st0 p.
+Lemma angle_parse p : forallb angle_node p = true -> forallb wf_node p = true -> forallb (stray_ok None) p = true ->
+  exists kids, parse_text (print_nodes p) = Ok kids /\ flat_list st0 kids = items_list st0 p.
 Proof.
-  intros Ha Hw. unfold parse_text, tokenize.
-  destruct (forest_lemma p Ha Hw [] [] [] [] closed_nil) as (pend & fs & pk & E & L & S & V).
+  intros Ha Hw Hs. unfold parse_text, tokenize.
+  destruct (forest_lemma p Ha Hw None Hs [] [] [] [] closed_nil I) as (pend & fs & pk & E & L & S & V).
   rewrite app_nil_r in E. rewrite E. cbn [tok].
   destruct (handle_flush pend fs pk []) as (fs2 & pk2 & E2 & V2 & S2).
   rewrite app_nil_r in E2. rewrite E2. cbn [handle].
-  rewrite S in S2. cbn [map] in S2. destruct fs2; [|discriminate].
+  rewrite S in S2. unfold shape in S2. cbn [map] in S2. destruct fs2; [|discriminate].
   eexists. split; [reflexivity|].
   cbn [close_all]. rewrite app_nil_r. change (flat_list st0 pk2) with (view [] pk2).
   rewrite V2, V. unfold pview. cbn [view flat_list rev]. change (unescape []) with (@nil Z). cbn [items_of_text flat_map style_of app]. reflexivity.
 Qed.
 
-(* C10_tags_scope at the level of one cue *)
+(* C10_tags_scope at the level of one cue, angle syntax *)
 Theorem angle_payload_good p :
-  forallb angle_node p = true -> forallb wf_node p = true ->
-  has_sub [92;110;92;114] (print_nodes p) = false ->
+  forallb angle_node p = true -> forallb wf_node p = true -> forallb (stray_ok None) p = true ->
   payload_good p /\ no_cr (print_nodes p).
 Proof.
-  intros Ha Hw Hb. destruct (angle_print p Ha Hw) as [A B]. split; auto.
+  intros Ha Hw Hs. destruct (angle_print p Ha Hw) as [A B]. split; auto.
   unfold payload_good. rewrite rw_id by auto. apply angle_parse; auto.
 Qed.
-
-Lemma angle_cues_ok f : wf_file f = true -> angle_file f = true -> trigger_backslash f = false ->
-  Forall cue_ok (f_cues f).
-Proof.
-  unfold wf_file, angle_file, trigger_backslash. intros W P T. apply andb_true_iff in W as [_ W].
-  pose proof (wf_cues_each _ W) as E. clear W.
-  induction (f_cues f) as [|c cs IH]; [constructor|].
-  cbn [forallb existsb] in *. apply andb_true_iff in P as [P1 P2]. apply orb_false_iff in T as [T1 T2].
-  inversion E; subst. constructor; auto.
-  unfold cue_ok. apply angle_payload_good; auto. apply (w_nodes c H1).
-Qed.
-
-Theorem roundtrip_angle_file f : wf_file f = true -> angle_file f = true ->
-  trigger_backslash f = false -> read_cues_file (print_file f) = Ok (cues f).
-Proof. intros. apply roundtrip_file_any; auto using angle_cues_ok. Qed.
-Theorem roundtrip_angle_lf f : wf_file f = true -> f_crlf f = false -> angle_file f = true ->
-  trigger_backslash f = false -> read_cues (print_file f) = Ok (cues f).
-Proof. intros. apply roundtrip_lf_any; auto using angle_cues_ok. Qed.
 
 (* ------------------------------------------------------------------ tolerance *)
 
@@ -351,14 +375,3 @@ Proof.
 Qed.
 Lemma same_content_cues l l' : Forall2 same_content l l' -> map cue_of l = map cue_of l'.
 Proof. induction 1 as [|c c' l l' H _ IH]; [reflexivity|]. cbn [map]. rewrite (same_content_cue c c' H), IH. reflexivity. Qed.
-
-(* counters, leading / separating / trailing blank-line runs, 2- or 3-digit hours, the white space around the
-   arrow, the rest of the timing line and the line terminator have no influence on what is read *)
-Theorem tolerates f f' :
-  wf_file f = true -> wf_file f' = true ->
-  angle_file f = true -> angle_file f' = true -> trigger_backslash f = false -> trigger_backslash f' = false ->
-  Forall2 same_content (f_cues f) (f_cues f') ->
-  read_cues_file (print_file f) = read_cues_file (print_file f') /\ read_cues_file (print_file f) = Ok (cues f).
-Proof.
-  intros. rewrite !roundtrip_angle_file by auto. split; auto. unfold cues. f_equal. apply same_content_cues; auto.
-Qed.
